@@ -56,6 +56,10 @@ def build(case, d, url_of):
                 if kind == "remote":
                     hw.store_basin(basin_type="remote", basin_format="http",
                                    basin_locs=[url_of(paths[v].name)], **kw)
+                elif kind == "disguised":
+                    # type remote, but format and location of a local file
+                    hw.store_basin(basin_type="remote", basin_format="hdf5",
+                                   basin_locs=[str(paths[v])], **kw)
                 elif kind == "dangling":
                     hw.store_basin(basin_type="file", basin_format="hdf5",
                                    basin_locs=[str(d / ("missing_%d.rtdc"
@@ -212,6 +216,11 @@ def main(tier, seed, replay=None):
                                               sl="TRUE", rt="FALSE"), 1),
                  ("remote/dangling K=2", dict(k=2, kinds="AllKinds",
                                               sl="FALSE", rt="TRUE"), 1),
+                 ("remote-typed local paths K=2", dict(
+                     k=2, kinds="DisguisedKinds", sl="FALSE", rt="TRUE"), 1),
+                 ("remote-typed local paths K=3", dict(
+                     k=3, kinds="DisguisedKinds", sl="FALSE", rt="TRUE"),
+                  200 if q else 20),
                  ("remote/dangling K=3", dict(k=3, kinds="AllKinds",
                                               sl="FALSE", rt="TRUE"),
                   400 if q else 40)]
